@@ -141,6 +141,12 @@ class Tr:
             sub.env[g.target.id] = (g.target.id, 'Nat')
             e, te = sub.expr(n.elt)
             return (f'((List.range {hi}).map (fun {g.target.id} => {cast(e, te, "Rat")}))', 'List Rat')
+        if (isinstance(n, ast.Call) and isinstance(n.func, ast.Attribute) and n.func.attr == 'get'
+                and isinstance(n.func.value, ast.Name) and (n.func.value.id + '.get(reversed)') in self.env
+                and len(n.args) == 2 and isinstance(n.args[0], ast.Call) and getattr(n.args[0].func, 'id', None) == 'tuple'
+                and isinstance(n.args[1], ast.Constant) and n.args[1].value == 0):
+            # counts.get(tuple(reversed(pair)), 0): the count of the reverse pair, 0 when absent
+            return self.env[n.func.value.id + '.get(reversed)']
         if isinstance(n, ast.Call):
             f = n.func
             fname = None
@@ -286,6 +292,15 @@ SPECS = {
           ('n_votes', 'n_votes', 'Rat')],
          'Bool', None),
     ]),
+    'PairwinScorer': ('votelib/component/pairwin_scorer.py', [
+        # value of one pair in the dict comprehension, as a function of its own count and the reverse pair's count
+        ('winning_votes#dictval', 'winning_votes_value',
+         [('count', 'count', 'Rat'), ('counts.get(reversed)', 'rev', 'Rat')], 'Rat', None),
+        ('margins#dictval', 'margins_value',
+         [('count', 'count', 'Rat'), ('counts.get(reversed)', 'rev', 'Rat')], 'Rat', None),
+        ('pairwise_opposition#dictval', 'pairwise_opposition_value',
+         [('count', 'count', 'Rat'), ('counts.get(reversed)', 'rev', 'Rat')], 'Rat', None),
+    ]),
     'RankScore': ('votelib/component/rankscore.py', [
         ('Borda.set_n_candidates', 'borda_scores',
          [('self.base', 'base', 'Int'), ('n_candidates', 'n_candidates', 'Nat')], 'List Rat', 'self._scores'),
@@ -306,6 +321,7 @@ def translate_module(modname):
     funcs = {}
     for path, lname, params, rtype, result_attr in items:
         cond_only = path.endswith('#cond')
+        dictval = path.endswith('#dictval')
         node = find_def(tree, path.split('#')[0])
         if not isinstance(node, ast.FunctionDef):
             raise TranslateError(f'{path} is not a function')
@@ -322,6 +338,20 @@ def translate_module(modname):
             if t != 'Bool':
                 raise TranslateError(f'{path}: condition is not boolean')
             term = e
+        elif dictval:
+            rets = [st for st in node.body if isinstance(st, ast.Return)]
+            if len(rets) != 1:
+                raise TranslateError(f'{path}: expected one return')
+            rv = rets[0].value
+            if isinstance(rv, ast.DictComp):
+                if len(rv.generators) != 1 or rv.generators[0].ifs:
+                    raise TranslateError(f'{path}: dict comprehension shape')
+                e, t = tr.expr(rv.value)
+                term = cast(e, t, rtype)
+            elif isinstance(rv, ast.Name) and rv.id == node.args.args[0].arg:
+                term = 'count'         # the dictionary is returned unchanged: the value of a pair is its own count
+            else:
+                raise TranslateError(f'{path}: unsupported return')
         else:
             for a in node.args.args:
                 if a.arg == 'self':
